@@ -78,7 +78,7 @@ class PrefixReplay(c01.Segmentation):
         got = []
         try:
             for _ in range(len(sent) + 2):
-                k, v = native_call(reactor.read_packet, f, 0, timeout=5.0)
+                k, v = native_call(reactor.read_packet, f, 0, timeout=10.0)
                 if k == 'hang' or (k == 'raise' and 'budget' in str(v)):
                     return 'busy loop / hang after %d packets' % len(got)
                 if k == 'raise':
